@@ -26,7 +26,32 @@ const WIDE: [(usize, &str); 11] = [
     (4, "\u{1d400}"), (4, "\u{1d7cf}"), (4, "\u{1f600}"),
 ];
 
+/// a call that has not returned after this long is a hang (the size ladder's slowest measured call takes 7 s)
+const HANG_MS: u128 = 60_000;
+/// exit code of the harness when the watchdog ends it
+pub const HANG_EXIT: i32 = 42;
+
+/// the call in progress: (operation, begin record of its session, start)
+static CURRENT: std::sync::Mutex<Option<(String, Value, Instant)>> = std::sync::Mutex::new(None);
+
+/// A call that never returns cannot be classified after the fact: a watchdog thread ends the process, leaving a
+/// record of the call (operation + the session's begin record, which is what `--one` replays) in `hang_path`.
+fn start_watchdog(hang_path: String) {
+    std::thread::spawn(move || loop {
+        std::thread::sleep(std::time::Duration::from_millis(500));
+        let cur = CURRENT.lock().map(|g| g.clone()).unwrap_or(None);
+        if let Some((op, begin, t0)) = cur {
+            if t0.elapsed().as_millis() > HANG_MS {
+                let _ = std::fs::write(&hang_path, json!({"op": op, "begin": begin, "after_ms": t0.elapsed().as_millis() as u64}).to_string());
+                println!("{}", json!({"hang": op}));
+                std::process::exit(HANG_EXIT);
+            }
+        }
+    });
+}
+
 struct Rec {
+    last_begin: Value,
     w: std::io::BufWriter<std::fs::File>,
     id: usize,
     calls: u64,
@@ -43,12 +68,15 @@ impl Rec {
         self.id += 1;
         self.inputs += 1;
         let shown: String = input.chars().take(6000).collect();
-        let _ = writeln!(self.w, "{}", json!({"e": "begin", "id": self.id, "kind": kind, "input": shown, "meta": meta}));
+        self.last_begin = json!({"e": "begin", "id": self.id, "kind": kind, "input": shown, "meta": meta});
+        let _ = writeln!(self.w, "{}", self.last_begin);
     }
     /// run one call; classify as ok / err / panic / timeout
     fn call<R>(&mut self, op: &str, f: impl FnOnce() -> Result<R, String>) -> Option<R> {
         let t0 = Instant::now();
+        if let Ok(mut g) = CURRENT.lock() { *g = Some((op.to_string(), self.last_begin.clone(), t0)); }
         let r = guarded(f);
+        if let Ok(mut g) = CURRENT.lock() { *g = None; }
         let ms = t0.elapsed().as_millis();
         self.calls += 1;
         let (res, whr, val) = match r {
@@ -283,7 +311,8 @@ fn run_one(path: &str) -> i32 {
     let v: Value = serde_json::from_str(&std::fs::read_to_string(path).expect("read")).expect("json");
     let rp = &v["replay"];
     let tmp = std::env::temp_dir().join(format!("c07_one_{}.ndjson", std::process::id()));
-    let mut rec = Rec { w: std::io::BufWriter::new(std::fs::File::create(&tmp).expect("tmp")), id: 0, calls: 0, inputs: 0, slow: 0 };
+    start_watchdog(tmp.with_extension("hang").to_string_lossy().to_string());
+    let mut rec = Rec { last_begin: Value::Null, w: std::io::BufWriter::new(std::fs::File::create(&tmp).expect("tmp")), id: 0, calls: 0, inputs: 0, slow: 0 };
     let input = rp["input"].as_str().unwrap_or("");
     let meta = &rp["meta"];
     match rp["kind"].as_str().unwrap_or("") {
@@ -312,7 +341,8 @@ pub fn run(args: &[String]) -> i32 {
     let out_path = arg(args, "--out").expect("--out");
     let thorough = flag(args, "--thorough");
     let (contents, _) = Contents::load(&arg(args, "--contents").map(|s| s.to_string()).unwrap_or_else(crate::util::contents_default));
-    let mut rec = Rec { w: std::io::BufWriter::new(std::fs::File::create(traces).expect("traces")), id: 0, calls: 0, inputs: 0, slow: 0 };
+    start_watchdog(format!("{}.hang", out_path));
+    let mut rec = Rec { last_begin: Value::Null, w: std::io::BufWriter::new(std::fs::File::create(traces).expect("traces")), id: 0, calls: 0, inputs: 0, slow: 0 };
     let mut rng = Rng::new(seed_from_env());
     let mut samples: Vec<Value> = Vec::new();
 
